@@ -214,6 +214,34 @@ def iter_program(rng):
     return "\n".join(L) + "\n"
 
 
+def iter_mutation_program(rng):
+    """random histories of vector mutation (push / pop / pop-all / element store) interleaved with steps of several
+    live iterators and for loops over the same vector: the cursor may end up anywhere relative to the length"""
+    r = rng
+    L = ["var v = [%s];" % ", ".join(str(i) for i in range(r.range(0, 6))), "var its = [v.iter(), v.iter()];",
+         "fn step(k) { var x = its[k].next(); if type(x) == StopIter { print([k, \"stop\"]); } else { print([k, x]); } }"]
+    for _ in range(r.range(6, 20)):
+        c = r.below(100)
+        if c < 30:
+            L.append("step(%d);" % r.below(2))
+        elif c < 45:
+            L.append("v.push(%d);" % r.range(10, 99))
+        elif c < 65:
+            L.append("if v.len() > 0 { v.pop(); }")
+        elif c < 72:
+            L.append("while v.len() > 0 { v.pop(); }")
+        elif c < 80:
+            L.append("its[%d] = v.iter();" % r.below(2))
+        elif c < 90:
+            body = r.choice(["v.pop(); if v.len() > 0 { v.pop(); }", "if v.len() > 1 { v.pop(); v.pop(); }", "while v.len() > 0 { v.pop(); }",
+                             "v.pop(); v.push(x + 100); v.pop();", "if v.len() < 9 { v.push(x); } else { while v.len() > 0 { v.pop(); } }"])
+            L.append("{ var n = 0; for x in v { print([\"loop\", x]); %s n = n + 1; if n > 12 { break; } } print(v); }" % body)
+        else:
+            L.append("print(v.iter().map(|x| { if v.len() > %d { v.pop(); } return x; }).collect());" % r.below(3))
+    L.append("step(0); step(1); print(v);")
+    return "\n".join(L) + "\n"
+
+
 # ---------------------------------------------------------------------------------- statement mixins
 
 def s_map(g, depth):
